@@ -1,0 +1,35 @@
+//go:build verif
+
+// Contracts for the gateway command-line tool, read by /verif/govc (comment-only file).
+// The action closure is executed symbolically up to the point where the configuration has been
+// decided (`stopat`: the first c.String call, which follows the predefined-topic handling); its
+// set-up calls are abstracted (`opaquecalls`, A-OPAQUECALL); command-line flags are functions of
+// the cli context and the flag name (A-CLI). That the values checked at the stop site are the ones
+// the gateway is started with is decided on the SSA (`flows`).
+
+package main
+
+//@ func handleAction$1
+//@   opaquecalls
+//@   stopat String.0
+//@   requires [C30,C31] ctx: c != nil
+//@   assigns *
+// ---- C31: no AUTH over plain UDP unless --insecure ----
+//@   at String.0 before assert [C31] never_plaintext_auth: !(flagBool(c, AuthFlag) && !flagBool(c, DtlsFlag) && !flagBool(c, InsecureFlag))
+//@   at String.0 before assert [C31] started_as_configured: authEnabled == flagBool(c, AuthFlag) && useDTLS == flagBool(c, DtlsFlag)
+//@   flows [C31] GatewayConfig.AuthEnabled <- authEnabled into NewGateway
+//@   flows [C31] GatewayConfig.UseDTLS <- useDTLS into NewGateway
+// ---- C30: the mapping handed to the gateway is the file's, overridden entry by entry by the options ----
+//@   at ReadPredefinedTopicsFile.0 before assert [C30] reads_the_file_flag: flagIsSet(c, PredefinedTopicsFileFlag) && arg(0) == flagString(c, PredefinedTopicsFileFlag)
+//@   at ReadPredefinedTopicsFile.0 after let fileT = retn(0)
+//@   at ParsePredefinedTopicOptions.0 before assert [C30] parses_the_option_flag: flagIsSet(c, PredefinedTopicFlag) && sameSlice(arg(0), flagStrings(c, PredefinedTopicFlag))
+//@   at ParsePredefinedTopicOptions.0 after let optT = retn(0)
+//@   at Merge.0 before let base = arg(0)
+//@   at Merge.0 before assert [C30] options_override_the_file: arg(1) == optT && (bound(fileT) ==> arg(0) == fileT) &&
+//@      (!bound(fileT) ==> (forall cl string, id uint16 :: !has(arg(0), cl, id)))
+//@   at String.0 before assert [C30] file_read_when_given: flagIsSet(c, PredefinedTopicsFileFlag) == bound(fileT)
+//@   at String.0 before assert [C30] options_merged_when_given: flagIsSet(c, PredefinedTopicFlag) == bound(base)
+//@   at String.0 before assert [C30] merged_mapping_used: bound(base) ==> predefinedTopics == base
+//@   at String.0 before assert [C30] file_mapping_used: !bound(base) && bound(fileT) ==> predefinedTopics == fileT
+//@   at String.0 before assert [C30] no_mapping_is_empty: !bound(base) && !bound(fileT) ==> (forall cl string, id uint16 :: !has(predefinedTopics, cl, id))
+//@   flows [C30] GatewayConfig.PredefinedTopics <- predefinedTopics into NewGateway
